@@ -1,6 +1,6 @@
 (* Extract/ExtractC04.v — extraction of the GSUB model to OCaml for the correspondence check.
    ExtrOcamlBasic only; Z, positive, nat stay Coq's inductives.  Depends on Model/Gen only. *)
-From AV Require Import Base.Prelude Gen.LayoutConsts Model.Layout Model.LayoutSpec Model.Gsub.
+From AV Require Import Base.Prelude Gen.LayoutConsts Model.Reader Model.Layout Model.LayoutSpec Model.Gsub Model.FeatureVariations.
 Require Import ExtrOcamlBasic.
 Extraction Language OCaml.
 
@@ -14,4 +14,5 @@ Definition z_eqb := Z.eqb.
 Extraction "../ocaml/c04/model.ml"
   z_add z_mul z_opp z_div_eucl z_ltb z_eqb
   gsub_apply_custom gsub_apply_default gsub_apply_lookup layout_parse match_glyph from_lookup_flag
-  coverage_value class_value skip_spec flag_combines_attach_and_set singlesubst.
+  coverage_value class_value skip_spec flag_combines_attach_and_set singlesubst
+  layout_read_fv feature_variations gsub_apply_custom_v gsub_apply_default_v gsub_apply_default_t.
